@@ -36,6 +36,10 @@ CONSTANTS
     DrawTab,    \* sequence of [name |-> code points, type |-> string, vals |-> <<per observation: <<value per draw>> >>]
     NRows, NPoints,
     NDraws,     \* number of draws (1 when the formulas have no draw variable)
+    Panel,      \* << >>, or for panel data the individual 1..NU of every observation (contiguous blocks)
+    Start,      \* set of starting node lists: {Leaves} for enumeration; or finished formulas proposed from outside
+                \* (deep "flagship" shapes the enumeration cannot reach), which the specification only accepts if every
+                \* node is inside its domain, and for which it computes the expected observables like for any other
     UnOps, BinOps, NaryOps,   \* operator alphabets (sets of class names)
     Exponents,  \* exponents offered to PowerConstant (rationals)
     KeySets,    \* sequences of integers offered as Elem keys / alternative ids / BelongsTo sets
@@ -66,6 +70,15 @@ DrawOf(r) == ((r - 1) % NDraws) + 1
 RowOf(o, d) == (o - 1) * NDraws + d
 Points == 1..NPoints
 NL     == Len(Leaves)
+\* the unit of an observation: itself, or on panel data the individual it belongs to; draws are made per unit
+IsPanel == Panel # << >>
+UnitOf(o) == IF IsPanel THEN Panel[o] ELSE o
+Units == {UnitOf(o) : o \in Obs}
+ObsOfUnit(u) == {o \in Obs : UnitOf(o) = u}
+FirstObs(u) == CHOOSE o \in ObsOfUnit(u) : \A o2 \in ObsOfUnit(u) : o <= o2
+RECURSIVE SortedSeq(_)
+SortedSeq(S) == IF S = {} THEN << >>
+                ELSE LET m == CHOOSE x \in S : \A y \in S : x <= y IN <<m>> \o SortedSeq(S \ {m})
 NOps(ns) == Len(ns) - NL
 
 (***************************************************************************)
@@ -85,8 +98,14 @@ BetaAtRank(k) == CHOOSE b \in FreeIdx : FreeRank(b) = k
 (***************************************************************************)
 SeqToSet(s) == {s[i] : i \in 1..Len(s)}
 IndexOf(s, x) == CHOOSE i \in 1..Len(s) : s[i] = x
-Pos(t) == (IsQ(t) /\ t.n > 0) \/ (~IsQ(t) /\ t.f = "exp")
-NonZero(t) == (IsQ(t) /\ t.n # 0) \/ (~IsQ(t) /\ t.f = "exp")
+\* positivity that can be read off the structure of a term: exponentials, and sums, products and quotients of
+\* positive terms (sound, not complete: what it does not recognise is left out of the domain)
+RECURSIVE Pos(_)
+Pos(t) == IF IsQ(t) THEN t.n > 0
+          ELSE CASE t.f = "exp" -> TRUE
+                 [] t.f \in {"add", "mul", "div"} -> Pos(t.a[1]) /\ Pos(t.a[2])
+                 [] OTHER -> FALSE
+NonZero(t) == (IsQ(t) /\ t.n # 0) \/ (~IsQ(t) /\ Pos(t))
 AsInt(t) == t.n     \* for integer-valued rationals
 
 Cmp(op, a, b) ==
@@ -140,20 +159,33 @@ OpVal(n, V(_)) ==
                           IF full \/ V(2 * j + 1).n # 0 THEN App("exp", <<U(j)>>) ELSE Zero]
           IN  Sub(U(c), App("log", <<SumSeq(terms)>>))
 
-RECURSIVE Val(_, _, _, _)
-Val(ns, i, r, p) ==
-  LET n == ns[i]
-      V(j) == Val(ns, n.kids[j], r, p)
-  IN
+RECURSIVE MulSeq(_)
+MulSeq(sq) == IF sq = << >> THEN One ELSE Mul(Head(sq), MulSeq(Tail(sq)))
+
+\* The meaning of node i on row r at point p, given the value V(j) of its j-th operand on the same row and
+\* VR(k, r2), the value of node k on another row r2 (the binders Monte-Carlo and trajectory look across rows).
+ValRule(ns, i, r, p, V(_), VR(_, _)) ==
+  LET n == ns[i] IN
   CASE n.op = "Numeric"  -> n.num
     [] n.op = "Beta"     -> BetaTab[n.name].vals[p]
     [] n.op = "Variable" -> VarTab[n.name].vals[ObsOf(r)]
-    [] n.op = "bioDraws" -> DrawTab[n.name].vals[ObsOf(r)][DrawOf(r)]   \* the r-th draw of ITS OWN series
+    [] n.op = "bioDraws" -> DrawTab[n.name].vals[UnitOf(ObsOf(r))][DrawOf(r)]   \* the r-th draw of ITS OWN series
+    \* panel data: the product over the observations of the individual, draw by draw -- the same on
+    \* every observation of the individual
+    [] n.op = "PanelLikelihoodTrajectory" ->
+          LET os == SortedSeq(ObsOfUnit(UnitOf(ObsOf(r)))) IN
+          MulSeq([k \in 1..Len(os) |-> VR(n.kids[1], RowOf(os[k], DrawOf(r)))])
     \* Monte-Carlo inside a formula: the mean over the draws of the observation -- the same on every draw
     \* of that observation, so that whatever is built above it is a quantity of the observation
     [] n.op = "MonteCarlo" ->
-          Div(SumSeq([d \in 1..NDraws |-> Val(ns, n.kids[1], RowOf(ObsOf(r), d), p)]), I(NDraws))
+          Div(SumSeq([d \in 1..NDraws |-> VR(n.kids[1], RowOf(ObsOf(r), d))]), I(NDraws))
     [] OTHER             -> OpVal(n, V)
+
+RECURSIVE Val(_, _, _, _)
+Val(ns, i, r, p) ==
+  LET V(j) == Val(ns, ns[i].kids[j], r, p)
+      VR(k, r2) == Val(ns, k, r2, p)
+  IN  ValRule(ns, i, r, p, V, VR)
 
 \* a draw variable that is not (on some path) below a Monte-Carlo operator
 RECURSIVE Open(_, _)
@@ -161,23 +193,34 @@ Open(ns, i) == \/ ns[i].op = "bioDraws"
                \/ (ns[i].op # "MonteCarlo" /\ \E j \in 1..Len(ns[i].kids) : Open(ns, ns[i].kids[j]))
 RECURSIVE HasOp(_, _, _)
 HasOp(ns, i, op) == ns[i].op = op \/ \E j \in 1..Len(ns[i].kids) : HasOp(ns, ns[i].kids[j], op)
+\* a data variable that is not (on some path) below the trajectory operator
+RECURSIVE VarOpen(_, _)
+VarOpen(ns, i) == \/ ns[i].op = "Variable"
+                  \/ (ns[i].op # "PanelLikelihoodTrajectory" /\ \E j \in 1..Len(ns[i].kids) : VarOpen(ns, ns[i].kids[j]))
 
 (***************************************************************************)
 (* Domain of a node given its children (the property's "regular domain"),  *)
 (* plus the magnitude bound that keeps TLC's arithmetic exact.             *)
 (***************************************************************************)
-NodeOK(ns, i, r, p) ==
+\* V(j): the value of the j-th operand on the row under consideration
+NodeOKV(ns, i, V(_)) ==
   LET n == ns[i]
-      V(j) == Val(ns, n.kids[j], r, p)
       NK == Len(n.kids)
   IN
-  /\ CASE n.op = "Divide" -> NonZero(V(2))
+     CASE n.op = "Divide" -> NonZero(V(2))
        [] n.op = "Power"  -> Pos(V(1)) /\ (IsQ(V(2)) => (QIsInt(V(2)) /\ Abs(V(2).n) <= 3) \/ V(2).d <= 4)
        [] n.op = "PowerConstant" ->
              IF QIsInt(n.num) THEN (n.num.n >= 0 \/ NonZero(V(1))) ELSE Pos(V(1))
        [] n.op = "log" -> Pos(V(1))
        \* the library's rule: a Monte-Carlo operator has a draw to integrate and no other one below it
-       [] n.op = "MonteCarlo" -> Open(ns, n.kids[1]) /\ ~HasOp(ns, n.kids[1], "MonteCarlo")
+       [] n.op = "MonteCarlo" -> /\ Open(ns, n.kids[1]) /\ ~HasOp(ns, n.kids[1], "MonteCarlo")
+                                 /\ (IsPanel => HasOp(ns, n.kids[1], "PanelLikelihoodTrajectory"))
+       \* on panel data only; one trajectory operator, below the Monte-Carlo operator if there is one
+       [] n.op = "PanelLikelihoodTrajectory" ->
+             /\ IsPanel /\ ~HasOp(ns, n.kids[1], "PanelLikelihoodTrajectory") /\ ~HasOp(ns, n.kids[1], "MonteCarlo")
+             /\ VarOpen(ns, n.kids[1])
+             \* the operator is meant for probabilities: the library multiplies through exp(sum(log(.)))
+             /\ Pos(V(1))
        [] n.op = "logzero" -> Pos(V(1)) \/ IsZero(V(1))
        [] n.op \in {"bioMin", "bioMax"} \cup Discrete -> \A j \in 1..NK : IsQ(V(j))
        [] n.op = "Elem" -> /\ IsQ(V(1)) /\ QIsInt(V(1)) /\ AsInt(V(1)) \in SeqToSet(n.keys)
@@ -193,6 +236,10 @@ NodeOK(ns, i, r, p) ==
              \* to its derivatives as a utility: history-dependent Hessians were observed)
              /\ \A j, k \in 1..Len(n.keys) : n.kids[2 * j] # n.kids[2 * k + 1]
        [] OTHER -> TRUE
+
+NodeOK(ns, i, r, p) ==
+  LET V(j) == Val(ns, ns[i].kids[j], r, p) IN
+  /\ NodeOKV(ns, i, V)
   /\ LET v == Val(ns, i, r, p) IN IsQ(v) => ~QBig(v, Bound)
 
 \* the new last node is inside the domain on every row and parameter point
@@ -275,13 +322,11 @@ JPowC(x, e) ==   \* x^e, e a rational constant
 RECURSIVE JSumSeq(_)
 JSumSeq(s) == IF s = << >> THEN JConst(Zero) ELSE JAdd(Head(s), JSumSeq(Tail(s)))
 
-RECURSIVE Jet(_, _, _, _)
-Jet(ns, i, r, p) ==
+\* The jet of node i on row r: v its value, J(j) / V(j) the jet / value of its j-th operand on the same row,
+\* JR(k, r2) the jet of node k on another row.
+JetRule(ns, i, r, v, J(_), V(_), JR(_, _)) ==
   LET n == ns[i]
-      J(j) == Jet(ns, n.kids[j], r, p)
-      V(j) == Val(ns, n.kids[j], r, p)
       NK == Len(n.kids)
-      v == Val(ns, i, r, p)
       raw ==
         CASE n.op = "Beta" ->
                IF BetaTab[n.name].free THEN JParam(v, FreeRank(n.name) + 1) ELSE JConst(v)
@@ -302,9 +347,16 @@ Jet(ns, i, r, p) ==
           [] n.op = "cos" -> JCos(J(1))
           [] n.op = "bioNormalCdf" -> JPhi(J(1))
           [] n.op = "bioMultSum" -> JSumSeq([j \in 1..NK |-> J(j)])
+          [] n.op = "PanelLikelihoodTrajectory" ->
+               LET os == SortedSeq(ObsOfUnit(UnitOf(ObsOf(r))))
+                   RECURSIVE JP(_)
+                   JP(k) == IF k > Len(os) THEN JConst(One)
+                            ELSE IF k = Len(os) THEN JR(n.kids[1], RowOf(os[k], DrawOf(r)))
+                            ELSE JMul(JR(n.kids[1], RowOf(os[k], DrawOf(r))), JP(k + 1))
+               IN  JP(1)
           \* the derivative of a mean is the mean of the derivatives
           [] n.op = "MonteCarlo" ->
-               LET JD(d) == Jet(ns, n.kids[1], RowOf(ObsOf(r), d), p) IN
+               LET JD(d) == JR(n.kids[1], RowOf(ObsOf(r), d)) IN
                [v |-> v,
                 g |-> [k \in KK |-> SDiv(SSumSeq([d \in 1..NDraws |-> JD(d).g[k]]), I(NDraws))],
                 h |-> [kl \in KK \X KK |-> SDiv(SSumSeq([d \in 1..NDraws |-> JD(d).h[kl]]), I(NDraws))]]
@@ -321,6 +373,45 @@ Jet(ns, i, r, p) ==
                                IF full \/ V(2 * j + 1).n # 0 THEN JExp(JU(j)) ELSE JConst(Zero)]
                IN  JSub(JU(c), JLog(JSumSeq(terms)))
   IN [raw EXCEPT !.v = v]
+
+RECURSIVE Jet(_, _, _, _)
+Jet(ns, i, r, p) ==
+  LET J(j) == Jet(ns, ns[i].kids[j], r, p)
+      V(j) == Val(ns, ns[i].kids[j], r, p)
+      JR(k, r2) == Jet(ns, k, r2, p)
+  IN  JetRule(ns, i, r, Val(ns, i, r, p), J, V, JR)
+
+(***************************************************************************)
+(* The same meaning computed bottom-up, node after node on all rows at     *)
+(* once (linear in the size of the formula; the recursive definitions      *)
+(* above re-evaluate shared operands and are exponential in the depth).    *)
+(* Used for the deep formulas proposed from outside; TabAgrees states that *)
+(* both computations coincide and is checked on the enumerated formulas.   *)
+(***************************************************************************)
+\* TLC re-evaluates a LET definition at every use; binding through a one-element set evaluates it once.
+Once(S) == CHOOSE x \in S : TRUE
+
+\* [ok, t]: t[r] = the values of nodes 1..k on row r; ok = every node so far inside its domain
+ValStep(ns, k, p, prev) ==
+  IF ~prev.ok THEN prev
+  ELSE IF ~\A r \in Rows : NodeOKV(ns, k, LAMBDA j : prev.t[r][ns[k].kids[j]]) THEN [prev EXCEPT !.ok = FALSE]
+  ELSE Once({[ok |-> \A r \in Rows : IsQ(t[r][k]) => ~QBig(t[r][k], Bound), t |-> t] :
+               t \in {[r \in Rows |->
+                        Append(prev.t[r], ValRule(ns, k, r, p, LAMBDA j : prev.t[r][ns[k].kids[j]],
+                                                  LAMBDA kid, r2 : prev.t[r2][kid]))]}})
+RECURSIVE ValTab(_, _, _)
+ValTab(ns, k, p) ==
+  IF k = 0 THEN [ok |-> TRUE, t |-> [r \in Rows |-> << >>]]
+  ELSE Once({ValStep(ns, k, p, prev) : prev \in {ValTab(ns, k - 1, p)}})
+\* t[r] = the jets of nodes 1..k on row r, given the table of values vt
+JetStep(ns, k, vt, prev) ==
+  [r \in Rows |->
+      Append(prev[r], JetRule(ns, k, r, vt[r][k], LAMBDA j : prev[r][ns[k].kids[j]],
+                              LAMBDA j : vt[r][ns[k].kids[j]], LAMBDA kid, r2 : prev[r2][kid]))]
+RECURSIVE JetTab(_, _, _)
+JetTab(ns, k, vt) ==
+  IF k = 0 THEN [r \in Rows |-> << >>]
+  ELSE Once({JetStep(ns, k, vt, prev) : prev \in {JetTab(ns, k - 1, vt)}})
 
 (***************************************************************************)
 (* What crosses the engine boundary: the signature (post-order lines, by   *)
@@ -372,7 +463,7 @@ Tables(ns, roots, p, r) ==
     IN  [free  |-> [k \in 1..Cardinality(oF) |-> BetaTab[AtRankIn(k - 1, oF)].vals[p]],
          fixed |-> [k \in 1..Cardinality(oX) |-> BetaTab[AtRankIn(k - 1, oX)].vals[p]],
          draws |-> LET oD == OccDraws(ns, roots) IN
-                   [k \in 1..Cardinality(oD) |-> DrawTab[DrawAtRank(k - 1, oD)].vals[ObsOf(r)][DrawOf(r)]],
+                   [k \in 1..Cardinality(oD) |-> DrawTab[DrawAtRank(k - 1, oD)].vals[UnitOf(ObsOf(r))][DrawOf(r)]],
          row   |-> [x \in 1..Len(VarTab) |-> VarTab[x].vals[ObsOf(r)]]]
 
 \* Evaluate signature lines, keeping an id -> line table; leaves are read BY INDEX from the tables.
@@ -380,19 +471,22 @@ LineNode(l, pos) ==   \* pos: id -> position among the lines
     [op |-> l.op, kids |-> [j \in 1..Len(l.kids) |-> pos[l.kids[j]]], num |-> l.num,
      name |-> 0, keys |-> l.keys, elem |-> l.elem, kind |-> l.kind, free |-> l.free]
 
-\* tabs: one table per draw of the observation (a single one without draws); d: the current draw
-RECURSIVE EvalLine(_, _, _, _)
-EvalLine(ls, q, tabs, d) ==
+\* tabs[o][d]: one table per observation and draw (a single one for a row-wise formula); (o, d): the current row
+RECURSIVE EvalLine(_, _, _, _, _)
+EvalLine(ls, q, tabs, o, d) ==
   LET n == ls[q]
-      tab == tabs[d]
-      V(j) == EvalLine(ls, n.kids[j], tabs, d)
+      tab == tabs[o][d]
+      V(j) == EvalLine(ls, n.kids[j], tabs, o, d)
   IN
   CASE n.op = "Numeric"  -> n.num
     [] n.op = "Beta"     -> IF n.free THEN tab.free[n.kind + 1] ELSE tab.fixed[n.kind + 1]
     [] n.op = "Variable" -> tab.row[n.kind + 1]
     [] n.op = "bioDraws" -> tab.draws[n.kind + 1]
     [] n.op = "MonteCarlo" ->
-          Div(SumSeq([e \in 1..Len(tabs) |-> EvalLine(ls, n.kids[1], tabs, e)]), I(Len(tabs)))
+          Div(SumSeq([e \in 1..Len(tabs[o]) |-> EvalLine(ls, n.kids[1], tabs, o, e)]), I(Len(tabs[o])))
+    [] n.op = "PanelLikelihoodTrajectory" ->
+          LET os == SortedSeq(ObsOfUnit(UnitOf(o))) IN
+          MulSeq([k \in 1..Len(os) |-> EvalLine(ls, n.kids[1], tabs, os[k], d)])
     [] OTHER             -> OpVal(n, V)
 
 \* well-formedness of a signature: one line per id, children defined before use
@@ -401,17 +495,17 @@ SigWellFormed(sig) ==     \* a shared node may be listed again, with the same li
     /\ \A q \in 1..Len(sig) : \A j \in 1..Len(sig[q].kids) :
           \E q0 \in 1..(q - 1) : sig[q0].id = sig[q].kids[j]
 
-EvalSigD(sig, tabs, d) ==
+EvalSigD(sig, tabs, o, d) ==
     LET ids == {sig[q].id : q \in 1..Len(sig)}
         pos == [x \in ids |-> CHOOSE q \in 1..Len(sig) : sig[q].id = x /\ \A q2 \in 1..(q - 1) : sig[q2].id # x]
         ls  == [q \in 1..Len(sig) |-> LineNode(sig[q], pos)]
-    IN  EvalLine(ls, Len(ls), tabs, d)
-EvalSig(sig, tab) == EvalSigD(sig, <<tab>>, 1)
+    IN  EvalLine(ls, Len(ls), tabs, o, d)
+EvalSig(sig, tab) == EvalSigD(sig, <<<<tab>>>>, 1, 1)
 
 (***************************************************************************)
 (* Generator.                                                              *)
 (***************************************************************************)
-Init == nodes = Leaves /\ done = FALSE
+Init == nodes \in Start /\ done = FALSE
 
 CanAdd == ~done /\ NOps(nodes) < MaxOps
 Idx == 1..Len(nodes)
@@ -419,7 +513,7 @@ AllOpNames == <<"Plus", "Minus", "Times", "Divide", "Power", "bioMin", "bioMax",
                 "Equal", "NotEqual", "LessOrEqual", "GreaterOrEqual", "Less", "Greater",
                 "UnaryMinus", "exp", "log", "logzero", "sin", "cos", "bioNormalCdf", "PowerConstant",
                 "bioMultSum", "BelongsTo", "Elem", "ConditionalSum", "bioLinearUtility",
-                "_bioLogLogit", "_bioLogLogitFullChoiceSet", "MonteCarlo">>
+                "_bioLogLogit", "_bioLogLogitFullChoiceSet", "MonteCarlo", "PanelLikelihoodTrajectory">>
 RECURSIVE HashSeq(_, _)
 HashSeq(sq, acc) == IF sq = << >> THEN acc ELSE HashSeq(Tail(sq), (acc * 31 + Head(sq) + 7) % 1000003)
 Hash(n) == HashSeq(n.keys, HashSeq(n.kids, (IndexOf(AllOpNames, n.op) * 131 + Abs(n.num.n) * 17 + n.num.d) % 1000003))
@@ -478,8 +572,14 @@ AllUsed(ns) == \A i \in (NL + 1)..(Len(ns) - 1) :
 
 \* when the Monte-Carlo operator is among the operators, a finished formula has no draw left open
 \* (otherwise the driver puts the operator at the root: Emitted.closed tells which)
-Emit == ~done /\ NOps(nodes) >= 1 /\ AllUsed(nodes)
-        /\ ("MonteCarlo" \in UnOps => ~Open(nodes, Len(nodes)) /\ HasOp(nodes, Len(nodes), "MonteCarlo"))
+\* a formula proposed from outside is accepted only if every node is admissible given the nodes before it
+Proposed == NOps(nodes) >= 1 /\ nodes \in Start
+ProposalOK == \A p \in Points : ValTab(nodes, Len(nodes), p).ok
+Emit == ~done /\ NOps(nodes) >= 1 /\ AllUsed(nodes) /\ (Proposed => ProposalOK)
+        /\ ("MonteCarlo" \in UnOps => ~Open(nodes, Len(nodes)) /\ (Proposed \/ HasOp(nodes, Len(nodes), "MonteCarlo")))
+        \* on panel data a finished formula has its data variables below its one trajectory operator
+        /\ (IsPanel => /\ ~VarOpen(nodes, Len(nodes)) /\ ~Open(nodes, Len(nodes))
+                        /\ Cardinality({i \in Reach(nodes, Len(nodes)) : nodes[i].op = "PanelLikelihoodTrajectory"}) = 1)
         /\ done' = TRUE /\ UNCHANGED nodes
 
 Next == AddUnary \/ AddBinary \/ AddNary \/ Emit
@@ -494,7 +594,7 @@ Root == Len(nodes)
 SigSound == done =>
     /\ SigWellFormed(Sig(nodes, Root))
     /\ \A r \in Rows, p \in Points :
-          EvalSigD(Sig(nodes, Root), [d \in 1..NDraws |-> Tables(nodes, {Root}, p, RowOf(ObsOf(r), d))], DrawOf(r))
+          EvalSigD(Sig(nodes, Root), [o \in Obs |-> [d \in 1..NDraws |-> Tables(nodes, {Root}, p, RowOf(o, d))]], ObsOf(r), DrawOf(r))
               = Val(nodes, Root, r, p)
 
 \* the numbering is by name: ranks form 0..K-1, and do not depend on the order of BetaTab
@@ -533,26 +633,46 @@ FreeOcc(ns, root) ==
     IN  [k \in 1..Cardinality(occ) |->
             FreeRank(CHOOSE b \in occ : NM!Rank(BetaTab[b].name, nms) = k - 1) + 1]
 
-Emitted ==
-    LET diff == Differentiable(nodes, Root) IN
+EmitUnits == 1..Cardinality(Units)      \* units are numbered 1..NU
+\* VT, JT: the bottom-up tables per point (proposed formulas), or << >> (enumerated formulas: recursive definitions)
+EmittedWith(diff, VT, JT) ==
+    LET EV(r, p) == IF Proposed THEN VT[p][r][Root] ELSE Val(nodes, Root, r, p)
+        EJ(r, p) == IF Proposed THEN JT[p][r][Root] ELSE Jet(nodes, Root, r, p)
+    IN
     [ops |-> [i \in 1..NOps(nodes) |-> CompactNode(nodes[NL + i])],
      root |-> Root, nleaves |-> NL, diff |-> diff, freeocc |-> FreeOcc(nodes, Root),
      closed |-> ~Open(nodes, Root),
      \* per OBSERVATION: the value, or with draws the Monte-Carlo mean over the draws of that observation
-     vals |-> [o \in Obs |-> [p \in Points |->
-                 IF NDraws = 1 \/ ~Open(nodes, Root) THEN Compact(Val(nodes, Root, RowOf(o, 1), p))
-                 ELSE Compact(Div(SumSeq([d \in 1..NDraws |-> Val(nodes, Root, RowOf(o, d), p)]), I(NDraws)))]],
-     table |-> [o \in Obs |-> [d \in 1..NDraws |-> LET oD == OccDraws(nodes, {Root}) IN
-                 [k \in 1..Cardinality(oD) |-> Compact(DrawTab[DrawAtRank(k - 1, oD)].vals[o][d])]]],
+     \* (on panel data: per INDIVIDUAL)
+     vals |-> [u \in EmitUnits |-> [p \in Points |->
+                 IF NDraws = 1 \/ ~Open(nodes, Root) THEN Compact(EV(RowOf(FirstObs(u), 1), p))
+                 ELSE Compact(Div(SumSeq([d \in 1..NDraws |-> EV(RowOf(FirstObs(u), d), p)]), I(NDraws)))]],
+     table |-> [u \in EmitUnits |-> [d \in 1..NDraws |-> LET oD == OccDraws(nodes, {Root}) IN
+                 [k \in 1..Cardinality(oD) |-> Compact(DrawTab[DrawAtRank(k - 1, oD)].vals[u][d])]]],
      jets |-> IF diff
-              THEN [o \in Obs |-> [p \in Points |->
+              THEN [u \in EmitUnits |-> [p \in Points |->
                       IF NDraws = 1 \/ ~Open(nodes, Root)
-                      THEN LET j == Jet(nodes, Root, RowOf(o, 1), p) IN
+                      THEN LET j == EJ(RowOf(FirstObs(u), 1), p) IN
                            [g |-> [k \in KK |-> Compact(j.g[k])],
                             h |-> [k \in KK |-> [l \in KK |-> Compact(j.h[<<k, l>>])]]]
-                      ELSE [g |-> [k \in KK |-> Compact(SDiv(SSumSeq([d \in 1..NDraws |-> Jet(nodes, Root, RowOf(o, d), p).g[k]]), I(NDraws)))],
+                      ELSE [g |-> [k \in KK |-> Compact(SDiv(SSumSeq([d \in 1..NDraws |-> EJ(RowOf(FirstObs(u), d), p).g[k]]), I(NDraws)))],
                             h |-> [k \in KK |-> [l \in KK |->
-                                     Compact(SDiv(SSumSeq([d \in 1..NDraws |-> Jet(nodes, Root, RowOf(o, d), p).h[<<k, l>>]]), I(NDraws)))]]]]]
+                                     Compact(SDiv(SSumSeq([d \in 1..NDraws |-> EJ(RowOf(FirstObs(u), d), p).h[<<k, l>>]]), I(NDraws)))]]]]]
               ELSE << >>]
+Emitted ==
+    IF ~Proposed THEN EmittedWith(Differentiable(nodes, Root), << >>, << >>)
+    ELSE Once(UNION {{EmittedWith(diff, vt, jt) :
+                         jt \in {IF diff THEN [p \in Points |-> JetTab(nodes, Len(nodes), vt[p])] ELSE << >>}} :
+                     vt \in {[p \in Points |-> ValTab(nodes, Len(nodes), p).t]}, diff \in {Differentiable(nodes, Root)}})
+\* the bottom-up computation coincides with the recursive definitions
+TabAgrees == done =>
+    \A p \in Points :
+        LET vt == ValTab(nodes, Len(nodes), p) IN
+        /\ vt.ok
+        /\ \A r \in Rows : vt.t[r][Root] = Val(nodes, Root, r, p)
+        /\ Differentiable(nodes, Root) =>
+              LET jt == JetTab(nodes, Len(nodes), vt.t) IN
+              \A r \in Rows : jt[r][Root] = Jet(nodes, Root, r, p)
+
 EmitInv == done => PrintT(ToJson(Emitted))
 =============================================================================
